@@ -221,6 +221,28 @@ def run(ctx):
             ctx.violation("concurrent exports into one file: final bytes differ from the canonical file",
                           {"gens": big, "threads": len(big)}, {"final_file": (badr[0]["file"] if badr else r), "canonical": cf, "bad_rounds": len(badr), "rounds": rounds})
         total += rounds
+    # the same histories carried out SEQUENTIALLY but by different persistent threads (step i on worker assign[i]): deterministic;
+    # whatever a thread keeps between its own steps is stale once another thread has written in between
+    nrel = 0
+    for gi, gens in enumerate(make_sets(ctx)[:6]):
+        big = gens + [{"name": g["name"] + "X", "text": g["text"].replace("export type " + g["name"], "export type " + g["name"] + "X")} for g in gens]
+        cf = vlib.run_model([{"op": "canon_file", "names": [g["name"] for g in big], "texts": [g["text"] for g in big]}])[0].get("ok")
+        n = len(big)
+        assigns = [[0, 1], [0, 1, 0], [0, 1, 2], [0, 0, 1, 1], [ctx.rng.randrange(3) for _ in range(n)]]
+        for a in assigns:
+            order = big[:]
+            if a is assigns[-1]:
+                ctx.rng.shuffle(order)
+            r = vlib.run_real(binary, [{"op": "relay", "root": os.path.join(vlib.SCRATCH, "c05", "r"), "assign": a,
+                                        "gens": [{"name": g["name"], "text": g["text"]} for g in order]}])[0]
+            nrel += 1
+            got = r.get("ok", {})
+            if got.get("file") != cf or not all(got.get("steps", [False])):
+                ctx.violation("exports into one file relayed over several threads (one at a time): final bytes differ from the canonical file",
+                              {"gens": order, "assign": a}, {"final_file": got.get("file", r), "canonical": cf, "step_results": got.get("steps")})
+                break
+    ctx.stream("exports relayed over threads", nrel, nrel, "sequential histories of 6-10 exports into one file where step i runs on persistent worker thread assign[i] "
+               "(alternating, round-robin over 3, pairs, random); final bytes = canonFile, every step Ok", [], {})
     ctx.stream("threaded exports", 3 * (10 if ctx.quick else 200), 3, "6-10 threads released by a barrier export into one file; final bytes must equal canonFile (test of the mutex-atomicity assumption)", [], {})
     ctx.assumptions += [
         "C05 domain (WFBlock): no blank line inside a declaration block; the text after the LAST `export type ` in the block starts with the type's name; import lines have the shape generate_imports prints",
@@ -234,6 +256,12 @@ def replay(ctx, obj):
     global NOTE
     binary = vlib.build_hookbin(ctx)
     c = obj["case"]
+    if "assign" in c:
+        r = vlib.run_real(binary, [{"op": "relay", "root": os.path.join(vlib.SCRATCH, "c05", "r"), "assign": c["assign"],
+                                    "gens": [{"name": g["name"], "text": g["text"]} for g in c["gens"]]}])[0]
+        cf = vlib.run_model([{"op": "canon_file", "names": [g["name"] for g in c["gens"]], "texts": [g["text"] for g in c["gens"]]}])[0]
+        print(json.dumps({"final_file": r.get("ok", {}).get("file"), "canonical": cf, "steps": r.get("ok", {}).get("steps")}, indent=1, ensure_ascii=False))
+        return 0 if r.get("ok", {}).get("file") == cf.get("ok") else 1
     case = {"op": "hist", "root": os.path.join(vlib.SCRATCH, "c05", "r"), "steps": c["steps"]}
     real = vlib.run_real(binary, [case])[0]
     cf = vlib.run_model([{"op": "canon_file", "names": [g["name"] for g in c["gens"]], "texts": [g["text"] for g in c["gens"]]}])[0]
